@@ -425,10 +425,17 @@ func genScenario(rd *vh.Rand, i int) scenario {
 	}
 	n := 6 + rd.Intn(22)
 	cur := ini // rough idea of the current delay, to aim time advances at timer boundaries
+	// most scripts start with a pending reconnect so that the interesting part is reached quickly
+	if rd.Chance(4, 5) {
+		for a := 0; a < sc.NAddr; a++ {
+			sc.Ops = append(sc.Ops, op{K: "sched", A: a})
+		}
+		sc.Ops = append(sc.Ops, op{K: "adv", D: mx + ini - (mx+ini)%125})
+	}
 	for j := 0; j < n; j++ {
 		a := rd.Intn(sc.NAddr)
 		switch x := rd.Intn(100); {
-		case x < 16:
+		case x < 12:
 			sc.Ops = append(sc.Ops, op{K: "sched", A: a})
 		case x < 48:
 			var d int64
@@ -451,8 +458,8 @@ func genScenario(rd *vh.Rand, i int) scenario {
 				d = 125
 			}
 			sc.Ops = append(sc.Ops, op{K: "adv", D: d})
-		case x < 74:
-			ok := rd.Chance(1, 4)
+		case x < 78:
+			ok := rd.Chance(1, 5)
 			sc.Ops = append(sc.Ops, op{K: "reply", I: rd.Intn(4), OK: ok})
 			if ok {
 				cur = ini
@@ -462,16 +469,16 @@ func genScenario(rd *vh.Rand, i int) scenario {
 					cur = mx
 				}
 			}
-		case x < 82:
+		case x < 83:
 			sc.Ops = append(sc.Ops, op{K: "pause"})
-		case x < 89:
+		case x < 90:
 			sc.Ops = append(sc.Ops, op{K: "resume"})
 		case x < 92:
 			sc.Ops = append(sc.Ops, op{K: "resetall"})
 			cur = ini
 		case x < 95:
 			sc.Ops = append(sc.Ops, op{K: "cancel", A: a})
-		case x < 96:
+		case x < 96 && j > n/2:
 			sc.Ops = append(sc.Ops, op{K: "stop"})
 		default:
 			if sc.Mode == "manager" {
